@@ -223,11 +223,11 @@ def plan(ctx: Ctx, prop: str):
 PREDS = {
     "C04": ({"C04"}, set()),
     "C08": ({"C08", "R08"}, {"session-failed", "create-again-accepted", "create-again-error", "create-again-changed",
-                             "good-write-rejected"}),
+                             "good-write-rejected", "readback-raised"}),
     "C03": ({"C03", "R03"}, set()),
     "C10": ({"C10"}, set()),
     "C11": ({"C11"}, set()),
-    "C18": ({"C18"}, {"session-failed", "good-write-rejected", "bad-shape-accepted"}),
+    "C18": ({"C18"}, {"session-failed", "good-write-rejected", "bad-shape-accepted", "readback-raised"}),
 }
 
 
